@@ -74,6 +74,26 @@ func (ldbw *levelDBWrapper) changesInternal(prefix []byte) (Patch, error) {
 	panic("unimplemented")
 }
 
+// ldbBatch reads from the store and collects writes in a batch, so that a whole commit or rollback can be handed to LevelDB
+// as one atomic write.
+type ldbBatch struct {
+	*leveldb.DB
+	batch *leveldb.Batch
+}
+
+func newLdbBatch(ldb *leveldb.DB) *ldbBatch {
+	return &ldbBatch{DB: ldb, batch: new(leveldb.Batch)}
+}
+func (b *ldbBatch) Put(key []byte, value []byte, wo *opt.WriteOptions) error {
+	b.batch.Put(key, value)
+	return nil
+}
+
+// View is a view of the store whose writes go to the batch only.
+func (b *ldbBatch) View() DB {
+	return enableDelete(&levelDBWrapper{db: b})
+}
+
 func newLevelDBSnapshotWrapper(ldb *leveldb.Snapshot) db {
 	return newMergedDb([]db{
 		newMemDBInternal(),
